@@ -761,6 +761,18 @@ def known_finding_probes():
         "new", "push ICMPv6 135", "set 0 nonce 0102030405060708", "show",
         # regression: KF-C04-Icmp-1 (rsa_signature padding)
         "new", "push ICMPv6 135", "set 0 rsa_signature 860dc55191a26bdeecc6bde36d5f726a f9eebd", "show",
+        # typed codecs at the representability boundary, one option per packet so that the oracle's value clause applies:
+        # DNS search lists whose encoding needs padding 0 (seeded/C04e) … 7, the empty list, a 255-octet label
+    ] + [x for L in (6, 5, 4, 3, 2, 1, 8, 7) for x in
+         ("new", "push ICMPv6 134", f"set 0 dns_search_list 7 {'61' * L}", "show")] + [
+        "new", "push ICMPv6 134", "set 0 dns_search_list 0 -", "show",
+        "new", "push ICMPv6 134", "set 0 dns_search_list 4294967295 " + "62" * 255 + ",612e62", "show",
+        # regression: KF-C04-Icmp-4 (all four AT bits), the empty key
+        "new", "push ICMPv6 134", "set 0 handover_key_request 13 aabbccdd", "set 0 handover_key_reply 65535 15 -", "show",
+        # lists at both ends, 64-bit timestamp, assist info of 255 octets, addresses that fill the option
+        "new", "push ICMPv6 134", "set 0 recursive_dns_servers 4294967295 " + ",".join(["20010db8000000000000000000000001"] * 127), "show",
+        "new", "push ICMPv6 134", "set 0 source_addr_list 000000000000 20010db8000000000000000000000001", "set 0 timestamp 010203040506 18446744073709551615", "show",
+        "new", "push ICMPv6 134", "set 0 handover_assist_info 255 " + "7f" * 255, "set 0 link_layer_addr 2 0011223344", "set 0 route_info 64 3 1 20010db800000001", "show",
     ] + (
         # regression of KF-C02-Icmp-1 (extensions behind a timestamp header overwrote the payload).  Such a message cannot
         # be parsed back with its extensions (RFC 4884 does not extend timestamps), so it is a C02 program only
